@@ -9,6 +9,8 @@ use crate::sy::Compiled;
 
 pub struct C06;
 
+const NESTED_BLOCKS: u64 = 64;
+
 const FIELD_NAMES: &[(&str, bool)] = &[
     // (name, is a Lua keyword that is not a Sylt keyword)
     ("x", false),
@@ -233,6 +235,42 @@ fn ladder(rng: &mut Rng, which: usize, n: usize) -> (String, &'static str, Optio
     }
 }
 
+/// Depth-1 integer expressions used as building blocks of the nested-operator family.
+const INT_D1: &[&str] = &[
+    "v", "1", "f(1)", "p.x", "tup[0]", "-v", "-1", "-f(1)", "-p.x", "-tup[0]", "(v + 1)", "(v - 1)", "(v * 2)", "(1 - v)", "(if t do 1 else do 2 end)", "-(v + 1)", "(-v - 1)", "(v - -1)", "-(-v)",
+    "(case e do A zq -> zq end else 0 end)",
+];
+const BOOL_D1: &[&str] = &["t", "true", "not t", "(v < 2)", "(v == 1)", "(t and t)", "(t or false)", "not (v < 2)", "(not t and t)", "not not t", "(-v < -1)"];
+
+/// All expressions `outer(inner1, inner2)` over the building blocks (bounded-exhaustive).
+fn nested_expressions() -> Vec<(String, &'static str)> {
+    let mut out = Vec::new();
+    for a in INT_D1 {
+        out.push((format!("-{}", a), "int"));
+        out.push((format!("-(-{})", a), "int"));
+        out.push((format!("- -{}", a), "int"));
+        for b in INT_D1 {
+            for op in ["+", "-", "*"] {
+                out.push((format!("{} {} {}", a, op, b), "int"));
+            }
+            out.push((format!("{} / {}", a, b), "float"));
+            for op in ["<", "==", ">=", "!="] {
+                out.push((format!("{} {} {}", a, op, b), "bool"));
+            }
+        }
+    }
+    for a in BOOL_D1 {
+        out.push((format!("not {}", a), "bool"));
+        out.push((format!("not (not {})", a), "bool"));
+        for b in BOOL_D1 {
+            for op in ["and", "or", "=="] {
+                out.push((format!("{} {} {}", a, op, b), "bool"));
+            }
+        }
+    }
+    out
+}
+
 const RUNGS: &[usize] = &[1, 5, 20, 40, 60, 80, 120, 250, 400, 1000];
 
 impl Check for C06 {
@@ -240,9 +278,34 @@ impl Check for C06 {
         "C06"
     }
     fn plan(&self, ctx: &Ctx) -> u64 {
-        scaled(ctx, 4_000, 60_000)
+        scaled(ctx, 4_000, 60_000) + NESTED_BLOCKS
     }
     fn run_case(&self, ctx: &Ctx, index: u64, st: &mut Stats) {
+        let main = scaled(ctx, 4_000, 60_000);
+        if index >= main {
+            // nested-operator family: block k of the bounded-exhaustive list, 12 expressions per program,
+            // each both as a definition and as an unused statement
+            let all = nested_expressions();
+            let per = (all.len() as u64 + NESTED_BLOCKS - 1) / NESTED_BLOCKS;
+            let k = index - main;
+            let lo = (k * per) as usize;
+            let hi = (((k + 1) * per) as usize).min(all.len());
+            if lo >= hi {
+                return;
+            }
+            for chunk in all[lo..hi].chunks(12) {
+                let mut body = String::new();
+                for (i, (e, _)) in chunk.iter().enumerate() {
+                    body.push_str(&format!("    w{} := {}\n", i, e));
+                    if i % 3 == 0 {
+                        body.push_str(&format!("    {}\n", e));
+                    }
+                }
+                st.add("nested_operator_expressions", chunk.len() as u64);
+                judge(st, index, "nested-operators", &chunk.iter().map(|(e, _)| e.as_str()).collect::<Vec<_>>().join(" ; "), &base("x", &body, ""), None);
+            }
+            return;
+        }
         let mut rng = Rng::for_case(ctx.seed, "C06", index);
         match index % 8 {
             0 => {
@@ -342,7 +405,7 @@ impl Check for C06 {
     }
     fn finish(&self, _ctx: &Ctx, st: &Stats) -> Finish {
         let mut inconclusive = Vec::new();
-        for fam in ["field-name", "string-literal", "number-literal", "unused-expression", "dead-code-after-jump", "size-ladder", "combination"] {
+        for fam in ["field-name", "string-literal", "number-literal", "unused-expression", "dead-code-after-jump", "size-ladder", "combination", "nested-operators"] {
             if st.get(&format!("tried:{}", fam)) == 0 {
                 inconclusive.push(format!("family never tried: {}", fam));
             }
@@ -353,7 +416,7 @@ impl Check for C06 {
         Finish {
             level: "exploration",
             rule: format!(
-                "template programs with lexical slots filled from hostile pools: {} field names (Lua-only keywords, preamble globals), {} string literals (all printable ASCII, multi-byte, ]] and --, backslash sequences, embedded newline/CR), {} numeric literals (leading zeros, 1. .5, exponents, 1e308, 1e-400, i64 max, overflow to infinity), {} expression kinds as unused statements in 5 positions, statements after ret/break/continue/<!>, 8 size ladders (reads per function, globals, parenthesis nesting, operator chains, call arguments, nested ifs, list elements, nested closures) over rungs {:?}. Oracle: luamon's load phase (syntax, return-not-last, break-outside-loop, goto rules, limits with grey zones). Non-trivial & distinct: accepted programs that loaded, by source hash.",
+                "template programs with lexical slots filled from hostile pools: {} field names (Lua-only keywords, preamble globals), {} string literals (all printable ASCII, multi-byte, ]] and --, backslash sequences, embedded newline/CR), {} numeric literals (leading zeros, 1. .5, exponents, 1e308, 1e-400, i64 max, overflow to infinity), {} expression kinds as unused statements in 5 positions, statements after ret/break/continue/<!>, a bounded-exhaustive family of nested operator expressions outer(inner, inner) over 20 integer and 11 boolean building blocks (unary minus/not next to every binary operator, call, field, index, if- and case-expressions), 8 size ladders (reads per function, globals, parenthesis nesting, operator chains, call arguments, nested ifs, list elements, nested closures) over rungs {:?}. Oracle: luamon's load phase (syntax, return-not-last, break-outside-loop, goto rules, limits with grey zones). Non-trivial & distinct: accepted programs that loaded, by source hash.",
                 FIELD_NAMES.len(),
                 STRINGS.len(),
                 NUMBERS.len(),
